@@ -68,6 +68,15 @@ SUBMISSIONS = [
     {'name': 'typeerr', 'files': {'answer.py': 'def add(a, b):\n    return a + b\nx = "a" + 1\n'}},
     {'name': 'turtle-assign', 'files': {'answer.py': 'import turtle\nturtle.forward = 50\ndef add(a, b):\n    return a + b\n'}},
     {'name': 'turtle-use', 'files': {'answer.py': 'import turtle\nturtle.forward(100)\ndef add(a, b):\n    return a + b\n'}},
+    # the same student confusion (assigning to a library function instead of calling it) for the other modules TIFA knows
+    {'name': 'plt-assign', 'files': {'answer.py': 'import matplotlib.pyplot as plt\nplt.title = "My plot"\ndef add(a, b):\n    return a + b\n'}},
+    {'name': 'plt-use', 'files': {'answer.py': 'import matplotlib.pyplot as plt\nplt.title("My plot")\ndef add(a, b):\n    return a + b\n'}},
+    {'name': 'math-assign', 'files': {'answer.py': 'import math\nmath.sqrt = "root"\nmath.pi = "three"\ndef add(a, b):\n    return a + b\n'}},
+    {'name': 'math-use', 'files': {'answer.py': 'import math\nr = math.sqrt(16) + math.pi\nprint(r)\ndef add(a, b):\n    return a + b\n'}},
+    {'name': 'string-assign', 'files': {'answer.py': 'import string\nstring.digits = 0\ndef add(a, b):\n    return a + b\n'}},
+    {'name': 'string-use', 'files': {'answer.py': 'import string\nprint("id: " + string.digits)\ndef add(a, b):\n    return a + b\n'}},
+    {'name': 'random-assign', 'files': {'answer.py': 'import random\nrandom.randint = 4\ndef add(a, b):\n    return a + b\n'}},
+    {'name': 'random-use', 'files': {'answer.py': 'import random\nn = random.randint(1, 6)\nprint(n > 0)\ndef add(a, b):\n    return a + b\n'}},
     {'name': 'inputs', 'files': {'answer.py': 'a = int(input("a?"))\nb = int(input("b?"))\nprint(a + b)\ndef add(a, b):\n    return a + b\n'}},
     {'name': 'sections', 'files': {'answer.py': 'x = 1\n##### Part 1\ndef add(a, b):\n    return a + b\nprint(y)\n##### Part 2\nz = = 3\n'}},
     {'name': 'annotated', 'files': {'answer.py': 'ages: list[int] = []\nnames = list()\nnames.append("Ada")\ndef add(a, b):\n    return a + b\n'}},
@@ -98,6 +107,14 @@ def correspondence(ctx):
                 continue
             sc = rng.choice([0, 11, 4])
             hists.append([[sc, a], [sc, b]])
+    # a submission that assigns to a library attribute, then one that uses it (always, for every module)
+    names = [b['name'] for b in SUBMISSIONS]
+    for a, nm in enumerate(names):
+        if nm.endswith('-assign') and nm[:-7] + '-use' in names:
+            b = names.index(nm[:-7] + '-use')
+            for sc in (0, 4, 11):
+                hists.append([[sc, a], [sc, b]])
+                hists.append([[sc, b], [sc, a], [sc, b]])
     for _ in range(n_hist):
         h = [[rng.randrange(ns), rng.randrange(nb)] for _ in range(rng.randrange(2, 7))]
         if rng.random() < 0.3:
@@ -137,6 +154,12 @@ def correspondence(ctx):
             key = 'leak:%s->%s:%s' % ('+'.join(prev) if len(prev) <= 2 else 'many', SCRIPTS[h[-1][0]]['name'], ','.join(diff))
             if 'pools' in prev and SCRIPTS[h[-1][0]]['name'] != 'pools':
                 key = 'leak:pools-persist'
+            # student code that EXECUTES `math.sqrt = "root"` really rebinds the attribute of the interpreter's math module
+            last_sub = SUBMISSIONS[h[-1][1]]['name']
+            earlier = [SUBMISSIONS[b]['name'] for s_, b in h[:-1]]
+            for mod in ('math', 'string', 'random'):
+                if last_sub == mod + '-use' and mod + '-assign' in earlier:
+                    key = 'student-code-rebinds-an-attribute-of-a-real-module'
             ctx.violation(key, {'history': names, 'in_history': {k: r[-1].get(k) for k in FIELDS}, 'fresh': {k: base.get(k) for k in FIELDS},
                                 'why': 'after the history %s the last grading differs from the same grading in a fresh interpreter in %s'
                                        % (names[:-1], diff)})
